@@ -88,6 +88,14 @@ def main(argv):
             surv = {m['id']: m for m in json.loads((DESIGN / 'survivors.json').read_text())}
             for m in muts:
                 m.update({k: v for k, v in surv.get(m['id'], {}).items() if k in ('cls', 'label')})
+    if '--func' in argv:
+        i = argv.index('--func')
+        pat = argv[i + 1]
+        muts = [m for m in muts if pat in m['func'] or pat in m['file']]
+        verbose = True
+    else:
+        verbose = False
+    surv_ids = {m['id']: m for m in json.loads((DESIGN / 'survivors.json').read_text())}
     with mp.Pool(16) as pool:
         results = pool.map(_task, [(m, props) for m in muts], chunksize=4)
     by = {m['id']: m for m in muts}
@@ -107,6 +115,9 @@ def main(argv):
                 for l in d:
                     print('      ', p, l)
             continue
+        if verbose:
+            sv = surv_ids.get(m['id'])
+            print(('V' if viol else ('E' if err else '.')), ('surv-' + sv['cls'] if sv else 'killed'), tag.replace('\n', ' ')[:150], viol or err or '')
         cls = m.get('cls')
         if cls == 'B':
             (caught if viol else missed).append((tag, m.get('label'), viol, err))
